@@ -207,6 +207,28 @@ def bounded_lazy_eval(p):
     lazy_fns.clear_object()
   else:
     S.check(False, dict(what='subprocess for the foreign handle failed'), out.stderr[-300:])
+  # attribute / item / method chains on a CACHED call that returns a stateful object: only the call itself was asked to be
+  # cached - every materialisation of `cached.attr`, `cached.seq[0]`, `cached.method()` reads the object's current state
+  class _Stateful:
+    def __init__(self):
+      self.n, self.log = 0, ['init']
+    def bump(self):
+      self.n += 1
+      self.log.insert(0, f'bump{self.n}')
+      return self.n
+  lazy_fns.clear_cache()
+  cached = lazy_fns.trace(_Stateful)(cache_result_=True)
+  eager = _Stateful()
+  for step in range(3):
+    got = expect(lambda: (mm(cached.n), mm(cached.log[0]), mm(cached.log)[:1], mm(cached) is mm(cached)))
+    exp = ('ok', (eager.n, eager.log[0], eager.log[:1], True))
+    if not S.check(got == exp, dict(what='attribute / item reads of a cached stateful object', after_updates=step),
+                   f'after {step} update(s): lazy (n, log[0], log[:1], same object) = {got}; eager {exp}', cls='stateful-chain'):
+      break
+    b_l, b_e = expect(lambda: mm(cached.bump())), eager.bump()
+    if not S.check(b_l == ('ok', b_e), dict(what='method call on a cached object', after_updates=step), f'cached.bump() = {b_l}; eager {b_e}', cls='stateful-call'):
+      break
+  lazy_fns.clear_cache()
   # lazy_result: a handle to an object held in the bounded cache
   for value in ([1, 2], None, 0):
     h = mm(lazy_fns.trace(lambda v=value: v)(lazy_result_=True))
